@@ -385,6 +385,8 @@ struct CondInfo {
     has_paren: bool,
     mixes_and_or: bool,
     tricky_string: bool,
+    /// a string literal holding a tab or a run of blanks
+    blank_run_string: bool,
 }
 
 /// Resolve a condition against a table: concrete column names and type-coerced literals.
@@ -438,6 +440,9 @@ fn print_cond(c: &RCond, style: u8, info: &mut CondInfo, out: &mut String) {
                 let s = STRS[*i as usize % STRS.len()];
                 if s.contains(" AND ") || s.contains(" OR ") || s.contains('=') || s.contains('(') || s.contains('\'') || s.contains('"') || s.contains('\\') {
                     info.tricky_string = true;
+                }
+                if s.contains('\t') || s.contains("  ") {
+                    info.blank_run_string = true;
                 }
             }
             if *op == Cmp::Ne && style & 2 != 0 {
@@ -846,7 +851,7 @@ fn step(op: &Op, w: &mut World, dry: bool) -> Step {
         },
         Op::Select { t, proj, cond, order, limit, offset, style } => {
             let td = &TABLES[*t as usize % 3];
-            let mut info = CondInfo { ne_angle: false, has_neg: false, has_paren: false, mixes_and_or: false, tricky_string: false };
+            let mut info = CondInfo { ne_angle: false, has_neg: false, has_paren: false, mixes_and_or: false, tricky_string: false, blank_run_string: false };
             let rc = cond.as_ref().map(|c| resolve(c, td));
             let mut where_text = String::new();
             if let Some(rc) = &rc {
@@ -930,6 +935,9 @@ fn step(op: &Op, w: &mut World, dry: bool) -> Step {
                     Err(_) => Out::Err("RelationalError".into()),
                 };
                 st.legacy = Some(leg);
+                if info.blank_run_string {
+                    st.features.push("tab-or-blank-run-in-string");
+                }
                 if info.tricky_string {
                     st.features.push("keyword-or-quote-in-string");
                 }
@@ -968,7 +976,7 @@ fn step(op: &Op, w: &mut World, dry: bool) -> Step {
         },
         Op::Update { t, sets, cond, style } => {
             let td = &TABLES[*t as usize % 3];
-            let mut info = CondInfo { ne_angle: false, has_neg: false, has_paren: false, mixes_and_or: false, tricky_string: false };
+            let mut info = CondInfo { ne_angle: false, has_neg: false, has_paren: false, mixes_and_or: false, tricky_string: false, blank_run_string: false };
             let rc = cond.as_ref().map(|c| resolve(c, td));
             let mut map = HashMap::new();
             let mut parts = Vec::new();
@@ -1006,7 +1014,7 @@ fn step(op: &Op, w: &mut World, dry: bool) -> Step {
         },
         Op::Delete { t, cond, style } => {
             let td = &TABLES[*t as usize % 3];
-            let mut info = CondInfo { ne_angle: false, has_neg: false, has_paren: false, mixes_and_or: false, tricky_string: false };
+            let mut info = CondInfo { ne_angle: false, has_neg: false, has_paren: false, mixes_and_or: false, tricky_string: false, blank_run_string: false };
             let rc = cond.as_ref().map(|c| resolve(c, td));
             let mut text = format!("{} {}", kw("DELETE FROM", *style), td.name);
             if let Some(rc) = &rc {
@@ -1683,7 +1691,7 @@ pub fn check(c: &StmtCase, ctx: &mut CaseCtx) -> Result<(), Fail> {
                     };
                     if !same {
                         // one root cause per signature, most specific first
-                        let f = ["paren", "ne-spelled-<>", "keyword-or-quote-in-string", "and-or-mix"]
+                        let f = ["paren", "ne-spelled-<>", "keyword-or-quote-in-string", "tab-or-blank-run-in-string", "and-or-mix"]
                             .iter()
                             .find(|t| st.features.contains(t))
                             .map_or(String::new(), |t| format!(":{t}"));
